@@ -264,11 +264,13 @@ fn main() -> ExitCode {
     // Print any diagnostics to the console, along with the total number of warnings and errors emitted.
     let mut stderr = console::Term::stderr();
     let mut emitter = DiagnosticEmitter::new(&mut stderr, &slice_options, &files);
-    DiagnosticEmitter::emit_diagnostics(&mut emitter, updated_diagnostics).expect("failed to emit diagnostics");
+    // If the diagnostics can't be written (the stream was closed, or is full), there's nobody left to tell about it.
+    // We carry on, so that the exit code still reports whether the compilation succeeded.
+    let _ = DiagnosticEmitter::emit_diagnostics(&mut emitter, updated_diagnostics);
 
     // Only emit the summary message if we're writing human-readable output.
     if slice_options.diagnostic_format == DiagnosticFormat::Human {
-        slicec::diagnostic_emitter::emit_totals(warning_count, error_count).expect("failed to emit totals");
+        let _ = slicec::diagnostic_emitter::emit_totals(warning_count, error_count);
     }
 
     // Finished.
